@@ -55,6 +55,7 @@ func specInputs(tier string, r *rng, each func(string)) {
 	}
 	enumStrings(alpha24, n24, func(b []byte) { each(string(b)) })
 	enumStrings(alpha12, n12, func(b []byte) { each(string(b)) })
+	focusedStrings(tier, func(b []byte) { each(string(b)) })
 	literalCases(each)
 	for _, s := range corpusStrings() {
 		each(s)
